@@ -40,6 +40,11 @@ func Text(t *tape.Tape, cs Charset, maxLen int) string {
 
 // Digits draws a small non-negative integer as text.
 func Digits(t *tape.Tape) string {
+	if t.Chance("val.int.odd", 1, 14) {
+		// texts that strconv accepts as floats but that are not ordinary numbers (non-finite, huge,
+		// hexadecimal), plus plainly non-numeric ones
+		return t.Pick("val.int.oddv", "NaN", "Inf", "-Inf", "+Infinity", "1e999", "0x1p-2", "1e3", "-0", "9223372036854775808", "12abc", "")
+	}
 	return fmt.Sprint(t.Intn("val.int", 100000))
 }
 
